@@ -34,5 +34,8 @@ Judge ==
              /\ ((del /\ Available(tgt, avail)) => (C09_Dirs(tgt, w) \/ Say("VERDICT", "TargetDirMissing")))
              /\ (~del => (C09_Keeps(w0, tgt, w) \/ Say("VERDICT", "RemovedOutsideTarget")))
              /\ (C09_Reported(tgt, avail, w, E) \/ Say("VERDICT", "UnavailableNotReported"))
+             \* a target directory whose directory object cannot be read is reported through the error callback, whatever
+             \* the workspace already holds under that name (for the model such a target lists nothing)
+             /\ (R.broken => (R.broken_reported \/ Say("VERDICT", "UnreadableDirectoryNotReported")))
              /\ ((del /\ Available(tgt, avail)) => ((LET L2 == ListsOf(R.lists2) IN L2.files_create = {} /\ L2.dirs_create = {} /\ L2.files_delete = {} /\ L2.dirs_delete = {}) \/ Say("VERDICT", "SecondCompareNotEmpty"))))
 =============================================================================
